@@ -99,24 +99,18 @@ pub fn substitutes_small() -> Vec<String> {
         .collect()
 }
 
-/// Which texts also get the tight rendering (see [`Tight`]).
-#[derive(Clone, Copy)]
-pub enum TightScope<'a> {
-    /// base documents, every mutant and every subtree deletion
+/// Which texts of a base document's family also get the tight rendering (see [`Tight`]).
+#[derive(Clone, Copy, PartialEq)]
+pub enum TightScope {
+    /// the base document only
+    BaseOnly,
+    /// the base document, every mutant and every subtree deletion
     All,
-    /// base documents and the substitution mutants whose substitute is in this (reduced) set
-    Reduced(&'a [String]),
 }
 
-impl TightScope<'_> {
+impl TightScope {
     fn mutants(&self) -> bool {
         matches!(self, TightScope::All)
-    }
-    fn substitute(&self, s: &str) -> bool {
-        match self {
-            TightScope::All => true,
-            TightScope::Reduced(set) => set.iter().any(|x| x == s),
-        }
     }
 }
 
@@ -220,8 +214,9 @@ impl Tight {
         })
     }
 
-    /// None if no separator can be dropped.
-    pub fn render(&mut self, pieces: &[&str]) -> Option<String> {
+    /// The tight rendering of `pieces` (`spaced` = their one-space rendering); None if no
+    /// separator can be dropped.
+    pub fn render(&mut self, pieces: &[&str], spaced: &str) -> Option<String> {
         let mut s = String::with_capacity(pieces.iter().map(|p| p.len() + 1).sum());
         let (mut cluster_start, mut cluster_first) = (0, 0);
         let mut broken = false; // a lexical error lies behind: keep every further separator
@@ -257,7 +252,7 @@ impl Tight {
             self.stats.identical_to_spaced += 1;
             return None;
         }
-        self.verify(pieces, &s);
+        self.verify(spaced, &s);
         self.stats.texts += 1;
         self.stats.separators_dropped += dropped;
         self.stats.separators_kept += kept;
@@ -266,9 +261,8 @@ impl Tight {
     }
 
     /// The invariant of the tight rendering, on the whole text.
-    fn verify(&mut self, pieces: &[&str], tight: &str) {
-        let spaced = pieces.join(" ");
-        let (u1, e1) = reference::tokenize_partial(&spaced, &mut self.toks);
+    fn verify(&mut self, spaced: &str, tight: &str) {
+        let (u1, e1) = reference::tokenize_partial(spaced, &mut self.toks);
         let (u2, e2) = reference::tokenize_partial(tight, &mut self.toks2);
         let same_tokens = self.toks.len() == self.toks2.len()
             && self.toks.iter().zip(&self.toks2).all(|(a, b)| a.kind == b.kind && spaced[a.start..a.end] == tight[b.start..b.end]);
@@ -289,32 +283,33 @@ impl Tight {
 /// one-space rendering and, as far as `scope` says, in the tight rendering (kind `<kind>-tight`).
 pub fn for_each_mutant(toks: &[String], subs: &[String], scope: TightScope, tight: &mut Tight, mut f: impl FnMut(&'static str, String)) {
     let n = toks.len();
-    let mut emit = |kind: &'static str, v: &[&str], want_tight: bool| {
-        f(kind, v.join(" "));
-        if want_tight {
-            if let Some(t) = tight.render(v) {
-                f(tight_kind(kind), t);
-            }
+    let want_tight = scope.mutants();
+    let mut emit = |kind: &'static str, v: &[&str]| {
+        let spaced = v.join(" ");
+        let t = if want_tight { tight.render(v, &spaced) } else { None };
+        f(kind, spaced);
+        if let Some(t) = t {
+            f(tight_kind(kind), t);
         }
     };
     let base: Vec<&str> = toks.iter().map(|s| s.as_str()).collect();
     for i in 0..n {
         let mut v = base.clone();
         v.remove(i);
-        emit("delete", &v, scope.mutants());
+        emit("delete", &v);
         let mut v = base.clone();
         v.insert(i, base[i]);
-        emit("duplicate", &v, scope.mutants());
+        emit("duplicate", &v);
         if i + 1 < n && base[i] != base[i + 1] {
             let mut v = base.clone();
             v.swap(i, i + 1);
-            emit("swap", &v, scope.mutants());
+            emit("swap", &v);
         }
         let mut v = base.clone();
         for s in subs {
             if s != base[i] {
                 v[i] = s;
-                emit("substitute", &v, scope.substitute(s));
+                emit("substitute", &v);
             }
         }
     }
@@ -334,11 +329,11 @@ pub fn for_each_subtree_deletion(
     for &(s, e) in ranges {
         if e - s >= 2 && e - s < toks.len() && seen.insert((s, e)) {
             let v: Vec<&str> = toks[..s].iter().chain(toks[e..].iter()).map(|x| x.as_str()).collect();
-            f("delete-subtree", v.join(" "));
-            if scope.mutants() {
-                if let Some(t) = tight.render(&v) {
-                    f("delete-subtree-tight", t);
-                }
+            let spaced = v.join(" ");
+            let t = if scope.mutants() { tight.render(&v, &spaced) } else { None };
+            f("delete-subtree", spaced);
+            if let Some(t) = t {
+                f("delete-subtree-tight", t);
             }
         }
     }
